@@ -830,7 +830,7 @@ class GraphBuilder:
         var.auto_transform = False
 
         try:
-            Model([var])
+            Model([var], to_float32=self.to_float32)
         except Exception:
             raise RuntimeError(f"Cannot build local model for {repr(var)}")
 
